@@ -34,6 +34,87 @@ PROPS = {
     },
 }
 
+
+PROPS.update({
+    "C01": {
+        "built": True, "category": "other", "design_ref": "DESIGN.md section 5, C01",
+        "technique": TECH + "Kani function contract placed on the real Time::size (proof_for_contract, all i64) + Verus proof of the extracted digit ladder; bounded Kani harnesses for Time::write_to, tree size()/write_to() and the loose header",
+        "text": "PROVED for every i64 timestamp: Time::size() equals the decimal length of the seconds plus 6 (two independent back ends: Kani contract in place, Verus on the extracted ladder); every u16 tree mode renders to octal text that parses back. BOUNDED: Time::write_to writes size() bytes and refuses exactly offsets >= 100h (every offset for fixed seconds, 44 digit-boundary seconds for fixed offsets); Tree/TreeRef size()==bytes written and re-decoding for 1-2 entries; loose header text and its decoder for sizes < 2^16. Commit/tag size accounting, decoding commits/tags back, and the id (SHA-1) are undecided.",
+        "note": "Trusted: itoa renders dec_len(n) bytes for 64-bit values (exercised at 44 boundaries only), SHA-1/zlib, Kani/CBMC, Verus/Z3; io::Error conversions stubbed in tree harnesses.",
+        "trusted_base": ["itoa 64-bit digit count (dependency contract, exercised at boundaries)", "SHA-1"],
+    },
+    "C03": {
+        "built": True, "category": "other", "design_ref": "DESIGN.md section 5, C03",
+        "technique": TECH + "Kani bounded harnesses inside gix-object on Ord for tree::Entry/EntryRef, editor::cmp_entry_with_name and TreeRef::bisect_entry against git's documented tree order; full-domain harness for mode text",
+        "text": "BOUNDED: for all NUL- and slash-free names up to 4 (quick) / 6 (thorough) bytes and ALL u16 modes the real comparison equals git's rule 'compare as if a tree name ended in /'; bisect_entry on sorted trees of <= 3 / 4 entries finds an entry exactly when a linear scan finds one of that name and kind. PROVED: mode text round trip for every u16.",
+        "note": "Bounded stand-in for the order (decided at the first differing byte, so small names reach every branch - an argument, not a proof). 'Hashes like git' only modulo SHA-1.",
+        "trusted_base": ["SHA-1 (for the hash clause)"],
+    },
+    "C06": {
+        "built": True, "category": "other", "design_ref": "DESIGN.md section 5, C06",
+        "technique": TECH + "panic-freedom obligations (Kani: overflow/bounds/unwrap/panic checks on symbolic bytes; Verus: bounds + overflow on extracted slice code) for the byte-level entry points only",
+        "text": "Decided entry points: packet-line streaming/all_at_once (Verus, ANY length) + hex_prefix (all 2^32 prefixes); and BOUNDED: loose-object header, tree entry iterator and mode parser, reference-name validators and sanitizer, ANSI-C unquoting, EWAH bitmap decode/walk, index entry decoder. All other listed parsers (commit/tag objects, refs, reflog, config, attributes, mailmap, commit-graph/multi-pack-index files, protocol, URL, refspec, revspec, pathspec, date, credentials) are NOT covered and are listed as undecided in the evidence.",
+        "note": "Level 'other': 9 of the 26 entry points named in the statement are under contract, most of them bounded by input length. Termination is only established within unwinding bounds.",
+        "trusted_base": [],
+    },
+    "C07": {
+        "built": True, "category": "other", "design_ref": "DESIGN.md section 5, C07",
+        "technique": TECH + "Kani full-domain harnesses (all u64 x u64, loops bounded by 10 LEB groups, unwinding assertions on) inside gix-pack for header write -> from_bytes/from_read; Verus proofs of the extracted leb64 and parse_header_info for slices of any length; bounded Kani harness for delta::apply against a spec interpreter",
+        "text": "PROVED for all 2^64 sizes x all 2^64 base distances / all base ids / the four base kinds: the written header has git's layout, decodes from memory and from a stream to the same values and consumes exactly the written length (= Header::size). PROVED (Verus, any slice length): leb64 and parse_header_info read exactly the terminated prefix and return its value without overflow or out-of-bounds access. BOUNDED: delta::apply equals a spec interpreter of the copy/insert format for deltas <= 6 (quick) / 8 bytes.",
+        "note": "Trusted: zlib inflation is outside; deltas are 'any well-formed delta in the format' within the bound, not samples of git output; io::Error message formatting stubbed on from_read harnesses.",
+        "trusted_base": ["zlib"],
+    },
+    "C15": {
+        "built": True, "category": "other", "design_ref": "DESIGN.md section 5, C15",
+        "technique": TECH + "Kani bounded harnesses on the real gix-validate crate against the rules of git-check-ref-format(1) written as a spec function",
+        "text": "BOUNDED: tag::name / reference::name_partial accept exactly git's names for every byte string up to 5 (quick) / 8 bytes, reference::name additionally the one-level rule up to 3 / 5 bytes; name_partial_or_sanitize never panics and yields a name that validates and that git accepts for every input up to 2 (quick) / 4 bytes plus separator/.lock skeletons. Known finding: the single name '@'.",
+        "note": "Bounded stand-in; spec function cross-checked against `git check-ref-format` at development time only (7368 names, 0 mismatches).",
+        "trusted_base": [],
+    },
+    "C24": {
+        "built": True, "category": "other", "design_ref": "DESIGN.md section 5, C24",
+        "technique": TECH + "Kani bounded harness inside gix-index on decode::entries::load_one over fully symbolic entry bytes against git's documented entry layout",
+        "text": "Only the per-entry layout clause: BOUNDED over every 63..72-byte (quick) / 96-byte input, an entry that decodes has git's fields, flags, path and occupies align8(62+ext+len+1) bytes, including the saturated 0xfff length field; truncated input never panics. Thread limits, extensions, V4 and whole-file agreement with git are undecided.",
+        "note": "Bounded stand-in for one clause; layout spec taken from gitformat-index / ondisk_ce_size.",
+        "trusted_base": [],
+    },
+    "C25": {
+        "built": True, "category": "other", "design_ref": "DESIGN.md section 5, C25",
+        "technique": TECH + "Kani bounded harness inside gix-index on write::entries / Entry::write_to against git's documented entry layout",
+        "text": "Only the per-entry clause: BOUNDED for two entries with paths up to 6 (quick) / 10 bytes and ALL stat/mode/id/flag values, the written bytes have git's layout (big-endian fields, flag word with min(len,0xfff), extended word, NUL padding to 8, contiguity). Checksum, header, extensions, read-back of whole files and acceptance by git are undecided.",
+        "note": "Bounded stand-in for one clause.",
+        "trusted_base": [],
+    },
+    "C29": {
+        "built": True, "category": "other", "design_ref": "DESIGN.md section 5, C29",
+        "technique": TECH + "Verus proof of the extracted decode::{streaming,to_data_line,all_at_once} (any input length) over a hex_prefix contract that a Kani full-domain harness discharges for all 2^32 prefixes; bounded Kani encoder->decoder round trips",
+        "text": "PROVED: any 4-byte prefix yields the documented control line / error / wanted length and never panics; streaming() on a slice of any length returns exactly data[4..n] with 4 < n <= 65520 or reports the missing byte count, with every slice index in range. BOUNDED: all six encoders followed by the decoder return the payload for payloads up to 4 (quick) / 10 bytes; boundary payload lengths. Reader chunk-independence and side-band demultiplexing are undecided.",
+        "note": "Trusted: faster_hex SIMD paths (scalar path executed), Verus/Z3, Kani/CBMC.",
+        "trusted_base": ["faster-hex SIMD code paths"],
+    },
+    "C34": {
+        "built": True, "category": "other", "design_ref": "DESIGN.md section 5, C34",
+        "technique": TECH + "Kani harnesses inside gix-url for the argument-safety classification (complete for the one byte they read) and bounded harnesses on gix_quote::single against a POSIX-sh unquoting spec",
+        "text": "PROVED (the functions read one byte): user/host are reported Dangerous and withheld by *_argument_safe exactly when they start with '-', path_argument_safe withholds exactly paths whose first byte after '/' is '-'. BOUNDED: gix_quote::single(s) is read by a POSIX shell as exactly one word equal to s for all s up to 2 (quick) / 4 bytes. That every transport call site uses these functions, prepare_invocation and gix_command are undecided.",
+        "note": "Call-site routing is not a contract; stays undecided.",
+        "trusted_base": [],
+    },
+    "C40": {
+        "built": True, "category": "other", "design_ref": "DESIGN.md section 5, C40",
+        "technique": TECH + "Kani bounded harnesses on gix_validate::path::component over generators of the refused classes (symbolic case masks, fillers, positions, option combinations)",
+        "text": "BOUNDED: every member of the generated families (.git/git~1 case variants with trailing dots/spaces/streams, HFS-ignorable code points, symlinked .gitmodules variants incl. 8.3 and hashed short names, Windows device names, separators, empty) up to the stated suffix bound is refused under the relevant option combinations.",
+        "note": "One direction only (refused classes are refused), as the property states; call sites undecided.",
+        "trusted_base": [],
+    },
+    "C57": {
+        "built": True, "category": "other", "design_ref": "DESIGN.md section 5, C57",
+        "technique": TECH + "Kani bounded harnesses on gix_quote::ansi_c::undo against git's documented C-style quoting as a spec function",
+        "text": "BOUNDED: undo(cquote(s) ++ rest) == (s, len(cquote(s))) for every s of <= 1 (quick) / 2 bytes of every escape class and every rest of <= 1 / 2 bytes; unquoted input of <= 3 / 5 bytes is returned unchanged.",
+        "note": "Bounded stand-in.",
+        "trusted_base": [],
+    },
+})
+
 NOT_APPLICABLE = {
     "C02": "oracle is objects produced by the git binary; winnow combinator decoders are outside Verus' subset and beyond CBMC at realistic object sizes; no contract short of 'equals git' states the property",
     "C04": "history property over HashMap<BString, Tree> + object-database callbacks (dyn FindExt); Verus cannot take the code, CBMC cannot take HashMap at useful bounds; ghost-state contracts would be a re-implementation",
